@@ -2445,6 +2445,13 @@ ldb_write(ldb_t *db, ldb_batch_t *updates, const ldb_writeopt_t *options) {
       LCDB_EV(("LogAppend", "\"rc\":%d,\"log\":%lu", rc,
                (unsigned long)db->logfile_number));
 
+      if (rc != LDB_OK) {
+        /* A failed or partial append leaves the log (and the writer's
+           block offset) in an indeterminate state as well: later records
+           could be unreadable. Treat it like a failed sync. */
+        sync_error = 1;
+      }
+
       if (rc == LDB_OK && options->sync) {
         rc = ldb_wfile_sync(db->logfile);
 
